@@ -215,3 +215,13 @@ def _cache_structure(ctx, eng):
 
 
 GENERATORS = [_cache_structure]
+
+
+_register_own = register
+
+
+def register(reg, ctx=None):
+    """plus: the container mutators and scene-graph hooks the derived beam state hangs on always notify (shared with C01)"""
+    _register_own(reg)
+    from .C01 import register_notifying_mutators
+    register_notifying_mutators(reg, PROP)
